@@ -151,6 +151,8 @@ class ObjMixin:
         if is_sym(obj):
             if name in ('real',):
                 return obj
+            if name == 'copy':
+                return Builtin('copy', lambda: obj)
             if name == 'values':
                 return obj
             raise Unsupported(f'attribute {name} on symbolic scalar')
@@ -874,6 +876,14 @@ class ObjMixin:
         if new is not None:
             raise Unsupported(f'__new__ in {cls.qualname}')
         init, owner = cls.lookup('__init__')
+        # a @dataclass generates its own __init__: it overrides an __init__ inherited from further up the MRO
+        if init is not None and owner is not None:
+            for c in cls.mro():
+                if c is owner:
+                    break
+                if c.dataclass is not None and c.dataclass.get('init', True):
+                    init = None
+                    break
         if init is not None:
             if isinstance(init, Builtin):
                 init.fn(obj, *args, **kwargs)
